@@ -3,11 +3,14 @@
 usage: tools_seed.py <seed-id> <src-dir> <property> [<more check ids to run>...]
   src-dir holds patch.diff, one or more *_test.go / *.go demonstration files and notes.md
   Confirms in a scratch worktree: suite passes with the patch, demo fails with it, demo passes without it.
-  Then applies the patch to /repo, runs the listed checks (quick tier), reverts, and writes /verif/seeded/<seed-id>/.
+  Then applies the patch to a second scratch worktree, runs the listed checks (quick tier) against it
+  (VERIF_REPO/VERIF_OUT: /repo and /verif/evidence stay untouched) and writes /verif/seeded/<seed-id>/. --all = every check.
 """
 import sys, os, subprocess, json, shutil, glob, re, time
 sid, src, prop = sys.argv[1], sys.argv[2], sys.argv[3]
-checks = [prop] + sys.argv[4:]
+checks = [prop] + [a for a in sys.argv[4:] if a != "--all"]
+if "--all" in sys.argv:
+    checks = [prop] + ["C%02d" % i for i in range(1, 21) if "C%02d" % i != prop]
 ENV = dict(os.environ, GOFLAGS="-mod=mod", GOPROXY="off", GOSUMDB="off", GOTOOLCHAIN="local")
 def sh(cmd, cwd=None, timeout=3600):
     p = subprocess.run(cmd, shell=True, cwd=cwd, env=ENV, stdout=subprocess.PIPE, stderr=subprocess.STDOUT, text=True, timeout=timeout)
@@ -85,11 +88,19 @@ try:
     meta["confirmed"] = bool(meta["suite_passes_with_patch"] and fails >= 2 and passes == 3)
 finally:
     sh("git -C /repo worktree remove --force %s" % wt)
-# 4. run the checks against the patch in /repo
-assert sh("git -C /repo status --porcelain")[1].strip() == "", "/repo not clean"
+# 4. run the checks against the patch applied to a scratch worktree (VERIF_REPO), outputs under VERIF_OUT:
+#    /repo and /verif/evidence are never touched, so several seeds can be processed at once.
 results = {}
-rc, out = sh("git -C /repo apply %s" % os.path.join(src, "patch.diff"))
+rwt = "/tmp/seedrun-" + sid
+rout = "/tmp/seedrun-" + sid + "-out"
+sh("git -C /repo worktree remove --force %s" % rwt)
+shutil.rmtree(rout, ignore_errors=True)
+rc, out = sh("git -C /repo worktree add -q --detach %s HEAD" % rwt)
 assert rc == 0, out
+rc, out = sh("git apply %s" % os.path.join(src, "patch.diff"), cwd=rwt)
+assert rc == 0, out
+ENV["VERIF_REPO"] = rwt
+ENV["VERIF_OUT"] = rout
 try:
     for cid in checks:
         t0 = time.time()
@@ -99,10 +110,12 @@ try:
         m = re.search(r"---- violation in mode (\S+) ----\n(.*?)(?=\n----|\nVIOLATION)", out, re.S)
         if m:
             msg = (m.group(1) + ": " + m.group(2))[:900]
+        elif rc == 2:
+            msg = " | ".join(l for l in lines if l.startswith("INCONCLUSIVE"))[:900] or out[-600:]
         results[cid] = {"exit": rc, "verdict": "VIOLATION" if rc == 1 else ("OK" if rc == 0 else "INCONCLUSIVE"), "violations": sum(1 for l in lines if l.startswith("VIOLATION")), "first_message": msg, "wall_s": round(time.time() - t0, 1)}
 finally:
-    sh("git -C /repo checkout -- .")
-    assert sh("git -C /repo status --porcelain")[1].strip() == ""
+    sh("git -C /repo worktree remove --force %s" % rwt)
+    shutil.rmtree(rout, ignore_errors=True)
 meta["checks_run_against_patch"] = results
 meta["caught_by"] = [c for c, r in results.items() if r["verdict"] == "VIOLATION"]
 dst = "/verif/seeded/" + sid
